@@ -17,6 +17,12 @@ mod visitors;
 
 pub use rename::RenameExt;
 
+/// Verification hooks: visibility only, compiled with `--cfg typeshare_verif`.
+#[cfg(typeshare_verif)]
+pub mod verif {
+    pub use crate::topsort::verif_hooks::{sort_by_indices, toposort_impl};
+}
+
 #[derive(Debug, Error)]
 #[allow(missing_docs)]
 pub enum ProcessInputError {
